@@ -25,7 +25,8 @@ RULE = ('complete tables; (a) case = (argument list, quoting style per argument,
         'non-trivial = a non-executable / directory / dangling entry shadows or precedes the answer; (c) case = one real spawn')
 ASSUMPTIONS = ['(a) arguments of 1..3 characters over {a, space, tab, \', ", \\, e-acute}; lists of 1, 2 and (sub-pool) 3 arguments',
                '(b)/(c) run as the current user (root: X_OK needs an x bit); (c) uses real processes and real time as a liveness bound only']
-REQUIRED_FLAGS = {'has_special': 1, 'lead_or_trail': 1, 'shadowed': 1, 'probe_answered': 1}
+REQUIRED_FLAGS = {'has_special': 1, 'lead_or_trail': 1, 'shadowed': 1, 'probe_answered': 1, 'program_word_alone': 1,
+                  'bare_name_env_without_path': 1, 'second_launch_differs_from_first': 1}
 ALPHA = ['a', ' ', '\t', "'", '"', '\\', '\xe9']
 
 
@@ -65,6 +66,12 @@ def tasks(tier):
         t.append(dict(kind='which', envform=envform))
     for i in range(8):
         t.append(dict(kind='child', part=i, parts=8, quick=q))
+    # launches that depend on each other or on the program word itself: a quoted program path given as a bare
+    # command line, every ordered pair of settings launched one after the other in one process, and a bare
+    # command name with an env mapping that has no PATH
+    t += [dict(kind='launch', sub='program-word', quick=q), dict(kind='launch', sub='env-no-path', quick=q)]
+    for i in range(4):
+        t.append(dict(kind='launch', sub='pairs', part=i, parts=4, quick=q))
     return t
 
 
@@ -394,9 +401,169 @@ def run_child(task, acc):
         shutil.rmtree(base, ignore_errors=True)
 
 
+def probe_once(acc, spawn, what):
+    """One real launch; returns the probe's report, 'launch-failed: ...' when the library refuses to start
+    the program, or None (inconclusive: the probe did not answer three times)."""
+    import pexpect
+    got = None
+    for attempt in range(3):
+        try:
+            child = spawn()
+        except pexpect.ExceptionPexpect as e:
+            return 'launch-failed: %s' % (str(e).splitlines() or [''])[0]
+        try:
+            child.expect(pexpect.EOF)
+            txt = child.before if isinstance(child.before, str) else child.before.decode('latin-1')
+            child.close()
+            if '<<<' in txt and '>>>' in txt:
+                got = json.loads(txt[txt.index('<<<') + 3: txt.index('>>>')])
+                break
+        except (pexpect.TIMEOUT, pexpect.ExceptionPexpect, OSError):
+            continue
+    acc.execs += 1
+    acc.transitions += 1
+    if got is None:
+        acc.extra['inconclusive'] = acc.extra.get('inconclusive', 0) + 1
+    else:
+        acc.flags['probe_answered'] += 1
+        acc.nontrivial += 1
+    return got
+
+
+def environ_latin1():
+    return sorted(k.encode('utf-8', 'surrogateescape').decode('latin-1') + '=' +
+                  v.encode('utf-8', 'surrogateescape').decode('latin-1') for k, v in os.environ.items())
+
+
+def run_launch(task, acc, only=None):
+    import pexpect
+    base = tempfile.mkdtemp(prefix='c13l', dir='/verif/.scratch')
+    probe = os.path.join(base, 'probe.py')
+    open(probe, 'w').write(PROBE)
+    workdir = os.path.join(base, 'w d')
+    os.mkdir(workdir)
+    n = 0
+    try:
+        if task['sub'] == 'program-word':
+            # the program itself needs quoting; a decoy sits where a second split of the word would point
+            progs = ['my tools/the prog', "it's", 'q"x', 'b\\s', 't\tab']
+            os.mkdir(os.path.join(base, 'my tools'))
+            for name in progs + ['my', 'it', 'q', 'b', 't']:
+                path = os.path.join(base, name)
+                decoy = name in ('my', 'it', 'q', 'b', 't')
+                with open(path, 'w') as f:
+                    if decoy:
+                        f.write('#!/bin/sh\necho \'<<<{"decoy": true}>>>\'\n')
+                    else:
+                        f.write('#!/bin/sh\nexec %s %s "$@"\n' % (sys.executable, probe))
+                os.chmod(path, 0o755)
+            for name in progs:
+                path = os.path.join(base, name)
+                for sname, quoted in styles_of(path):
+                    for args, qargs in (([], ''), (['a b', 'c'], ' a\\ b c')):
+                        for lt, (lead, trail) in enumerate((('', ''), (' ', ''), ('', ' '), ('\t', ' \t'))):
+                            line = lead + quoted + qargs + trail
+                            case = 'program-word:%s:%d-args' % (sname, len(args))
+                            detail = [progs.index(name), sname, len(args), lt]
+                            if only is not None and only != detail:
+                                continue
+                            got = probe_once(acc, lambda: pexpect.spawn(line, timeout=60), case)
+                            n += 1
+                            acc.flags['quoted_program_word'] += 1
+                            if not args:
+                                acc.flags['program_word_alone'] += 1
+                            if got is None:
+                                continue
+                            ok = isinstance(got, dict) and got.get('argv') == args
+                            acc.outcomes['program-word:%s' % ('ok' if ok else 'bad')] += 1
+                            if not ok:
+                                acc.violation(case, 'spawn(%r): expected %r to run with arguments %r; %s'
+                                              % (line, path, args, 'another program ran' if isinstance(got, dict) and got.get('decoy')
+                                                 else 'got %r' % (got if isinstance(got, str) else got.get('argv'),)),
+                                              dict(task=task, case=case, only=detail))
+        elif task['sub'] == 'env-no-path':
+            # bare command name, env without PATH (so the default path is searched): the child's environment
+            # is exactly the mapping that was given
+            for envname, env in (('no-path', {'C13': 'v a l', 'LC_ALL': 'C.UTF-8'}), ('empty', {}),
+                                 ('with-path', {'C13': 'x', 'PATH': '/usr/bin:/bin'}), ('empty-path', {'C13': 'x', 'PATH': ''})):
+                for form in ('bare', 'explicit'):
+                    for via in ('spawn', 'run'):
+                        cmd = 'cat' if form == 'bare' else '/bin/cat'
+                        given = dict(env)
+                        case = 'env-no-path:%s:%s:%s' % (envname, form, via)
+                        if only is not None and only != case:
+                            continue
+                        try:
+                            if via == 'spawn':
+                                child = pexpect.spawn(cmd, ['/proc/self/environ'], env=given, timeout=60)
+                                child.expect(pexpect.EOF)
+                                out = child.before
+                                child.close()
+                            else:
+                                out = pexpect.run(cmd + ' /proc/self/environ', env=given, timeout=60)
+                            got = sorted(e.decode('latin-1') for e in out.split(b'\0') if e)
+                        except pexpect.ExceptionPexpect as e:
+                            got = 'launch-failed: %s' % (str(e).splitlines() or [''])[0]
+                        acc.execs += 1
+                        acc.transitions += 1
+                        acc.nontrivial += 1
+                        n += 1
+                        if 'PATH' not in env and form == 'bare':
+                            acc.flags['bare_name_env_without_path'] += 1
+                        want = sorted('%s=%s' % kv for kv in env.items())
+                        ok = got == want
+                        acc.outcomes['env-no-path:%s' % ('ok' if ok else 'bad')] += 1
+                        if not ok:
+                            acc.violation(case, '%s(%r, env=%r): the child saw environment %r' % (via, cmd, env, got),
+                                          dict(task=task, case=case, only=case))
+        else:
+            # every ordered pair of settings, launched one after the other in this process: the second child
+            # sees its own request, whatever the first one asked for
+            confs = [dict(), dict(dimensions=(10, 33)), dict(dimensions=(50, 132)), dict(dimensions=None),
+                     dict(echo=False), dict(cwd=workdir), dict(env={'C13': 'one', 'PATH': '/usr/bin:/bin'}),
+                     dict(env={'C13B': 'two'}), dict(ignore_sighup=True), dict(encoding='utf-8', dimensions=(7, 9), echo=False)]
+
+            def launch(conf):
+                return probe_once(acc, lambda: pexpect.spawn(sys.executable, [probe, 'x'], timeout=60, **conf), conf)
+
+            def wanted(conf):
+                dim = conf.get('dimensions') or (24, 80)
+                w = dict(argv=['x'], cwd=os.path.realpath(conf['cwd']) if conf.get('cwd') else os.getcwd(),
+                         echo=conf.get('echo', True), hup_ignored=conf.get('ignore_sighup', False), rows=dim[0], cols=dim[1])
+                w['env'] = sorted('%s=%s' % kv for kv in conf['env'].items()) if conf.get('env') is not None else environ_latin1()
+                return w
+            pairs = list(itertools.product(range(len(confs)), repeat=2))
+            for j, (a, b) in enumerate(pairs):
+                if j % task['parts'] != task['part'] or (only is not None and only != [a, b]):
+                    continue
+                for which, conf in (('first', confs[a]), ('second', confs[b])):
+                    got = launch(dict(conf))
+                    n += 1
+                    if got is None:
+                        continue
+                    if which == 'second' and a != b:
+                        acc.flags['second_launch_differs_from_first'] += 1
+                    want = wanted(conf)
+                    bad = [k for k in want if not isinstance(got, dict) or got.get(k) != want[k]]
+                    acc.outcomes['pairs:%s' % ('ok' if not bad else 'bad')] += 1
+                    if bad:
+                        k = bad[0]
+                        case = 'pairs:%s:%s' % (k, which)
+                        acc.violation(case, '%s launch %r (after %r): child saw %s=%r, requested %r'
+                                      % (which, conf, confs[a] if which == 'second' else None, k,
+                                         got.get(k) if isinstance(got, dict) else got, want[k]),
+                                      dict(task=task, case=case, only=[a, b]))
+        acc.states += n
+    finally:
+        shutil.rmtree(base, ignore_errors=True)
+
+
 def run_task(task):
     os.makedirs('/verif/.scratch', exist_ok=True)
     acc = Acc()
+    if task['kind'] == 'launch':
+        run_launch(task, acc)
+        return acc
     if task['kind'].startswith('split'):
         run_split(task, acc)
     elif task['kind'] == 'which':
@@ -422,7 +589,11 @@ def replay(spec):
             out['violation'] = {'key': 'split:%s' % spec.get('sym', 'plain'),
                                 'msg': 'split_command_line(%r) = %r expected %r' % (spec['line'], got, spec['args'])}
         return out
-    acc = run_task(task)
+    if task['kind'] == 'launch':
+        acc = Acc()
+        run_launch(task, acc, only=spec.get('only'))
+    else:
+        acc = run_task(task)
     for k in sorted(acc.violations):
         for v in acc.violations[k]:
             r = v['replay']
